@@ -76,4 +76,4 @@ class Context(object):
             raise RuntimeError("no target at %r" % ((self.connected[0], self.targetname, lun),))
         status, sense = tgt.command(task.cdb, dataout, datain, "iscsi")
         task.status = status
-        task.raw_sense = sense if sense is not None else b""
+        task.raw_sense = sense            # None when the target supplied no sense data
